@@ -11,6 +11,7 @@ Theorem C08_delay_range : forall lat jit draws,
   exists d ds, latency_delay lat jit draws = (Some d, ds) /\
     (if 0 <? jit then (lat - jit) * 1000000 <= d < (lat + jit) * 1000000 else d = lat * 1000000).
 Proof. exact latency_delay_range. Qed.
+Print Assumptions C08_delay_range.
 
 (** a chunk stamped ts by the proxy's reader and picked up by the stage at at_ is forwarded, whole
     and unchanged, at max(at_, ts + d) when the receiver is ready: never before ts + d, and exactly
@@ -24,16 +25,19 @@ Theorem C08_emit_time : forall lat jit ps draws at_ (c : chunk) fuel d ds,
   let r := stage_emit (TLatency lat jit) ps at_ fuel None s1 in
   fst (fst r) = [(Z.max at_ (cts c + d), cdata c)] /\ final_st r = Idle 0 None.
 Proof. exact latency_one. Qed.
+Print Assumptions C08_emit_time.
 
 (** a timer never fires before its deadline, on any schedule of the link *)
 Theorem C08_not_early : forall l i l',
   stub_timer l i = Some l' ->
   exists s dl, nth_error (l_stubs l) i = Some s /\ stub_deadline s = Some dl /\ dl <= l_now l.
 Proof. exact timer_not_early. Qed.
+Print Assumptions C08_not_early.
 
 (** order and content: the latency stage meets the preserving contract (see the C01_stage theorems) *)
 Theorem C08_order_content : forall lat jit, preserving (TLatency lat jit).
 Proof. intros; exact I. Qed.
+Print Assumptions C08_order_content.
 
 (** the stamp passed downstream is arrival stamp + sleep; that is the forwarding time only when
     the chunk was picked up the instant it was stamped. Two latency toxics in series therefore
@@ -46,6 +50,7 @@ Theorem C08_series_refuted :
                          [SWrite 0 [1]; SWrite 60000000 [2]] []) = Some l /\
             sink_trace l = [(150000000, 1); (170000000, 1)].
 Proof. eexists. split; vm_compute; reflexivity. Qed.
+Print Assumptions C08_series_refuted.
 
 (** when the first stage is idle at each arrival the delays do add up *)
 Theorem C08_series_when_idle :
@@ -54,6 +59,7 @@ Theorem C08_series_when_idle :
                          [SWrite 0 [1]; SWrite 200000000 [2]] []) = Some l /\
             sink_trace l = [(150000000, 1); (350000000, 1)].
 Proof. eexists. split; vm_compute; reflexivity. Qed.
+Print Assumptions C08_series_when_idle.
 
 (** ---- sequences: with jitter 0 the stage's run over any sequence of chunks is the closed form
     e_k = max(p_k, stamp_k + latency) (p_k = when the stage picked chunk k up) ... *)
@@ -61,6 +67,7 @@ From TP Require Import Proofs.StageFeed Proofs.FeedProofs.
 Theorem C08_sequence_closed_form : forall lat fuel, (1 < fuel)%nat -> forall ps, ms_ok lat -> forall arr,
   feed (TLatency lat 0) fuel ps (Idle 0 None) (arrivals arr) = (lat_sched (lat * 1000000) arr, Idle 0 None, ps).
 Proof. exact lat_feed. Qed.
+Print Assumptions C08_sequence_closed_form.
 
 (** ... so a burst - chunks stamped at one instant and picked up back to back, however many - leaves
     at one instant, stamp + latency: every chunk is delayed once, counted from its arrival, and the
@@ -69,3 +76,4 @@ Theorem C08_burst_is_delayed_once : forall L ts arr,
   Forall (fun pc => cts (snd pc) = ts /\ fst pc <= ts + L) arr ->
   Forall (fun e => fst e = ts + L) (lat_sched L arr).
 Proof. exact lat_burst. Qed.
+Print Assumptions C08_burst_is_delayed_once.
